@@ -370,6 +370,61 @@ Definition rpe_pd (ratio : bool) (ref est : list TPose) (pairs : list (nat * nat
   (err, ids, arrs, (map tp_tag r, map tp_tag e)).
 End Concrete.
 
+(* ------------------------------------------------------------------------------------------ *)
+(* get_result stores the error array BY REFERENCE: a small heap model                           *)
+(* ------------------------------------------------------------------------------------------ *)
+(* PE.get_result: result.add_np_array("error_array", self.error) keeps a reference to the metric's
+   array.  Arrays live in a heap (address = position); a metric is (address of self.error, unit); a
+   Result is (statistics at the time, ADDRESS of its error_array, unit named in its label).
+   change_unit rebinds self.error to a NEW array (current code: `self.error = self.error * f`,
+   np.rad2deg/np.deg2rad); [inplace = true] is the earlier code for length units
+   (`self.error *= f` writes into the array a Result may already hold). *)
+Section Heap.
+Context {T : Type} {ops : NumOps T}.
+Definition heap : Type := list (list T).
+Definition hread (h : heap) (a : nat) : list T := nth a h [].
+Fixpoint hwrite (h : heap) (a : nat) (x : list T) : heap :=
+  match h, a with
+  | [], _ => []
+  | _ :: r, O => x :: r
+  | y :: r, S a' => y :: hwrite r a' x
+  end.
+Definition halloc (h : heap) (x : list T) : heap * nat := (h ++ [x], length h).
+
+Definition hmetric : Type := (nat * Unit)%type.
+Definition hresult : Type := ((T * T * T * T * T * T * T) * nat * Unit)%type.
+Definition res_stats (r : hresult) := fst (fst r).
+Definition res_addr (r : hresult) : nat := snd (fst r).
+Definition res_unit (r : hresult) : Unit := snd r.
+
+Definition get_result_h (h : heap) (m : hmetric) : hresult :=
+  (all_statistics (hread h (fst m)), fst m, snd m).
+
+Definition change_unit_h (inplace : bool) (pi : T) (h : heap) (m : hmetric) (v : Unit)
+  : cu_status * (heap * hmetric) :=
+  match change_unit pi (hread h (fst m)) (snd m) v with
+  | (CuRefused r, _) => (CuRefused r, (h, m))
+  | (CuOk, (e', u')) =>
+      if unit_eqb (snd m) v then (CuOk, (h, m))
+      else if inplace && is_length (snd m) then (CuOk, (hwrite h (fst m) e', (fst m, u')))
+      else let '(h', a) := halloc h e' in (CuOk, (h', (a, u')))
+  end.
+
+(* a Result is self-consistent in a heap: its statistics are those of the array it refers to *)
+Definition result_consistent (h : heap) (r : hresult) : Prop :=
+  res_stats r = all_statistics (hread h (res_addr r)).
+
+(* r1 = m.get_result(); m.change_unit(v); r2 = m.get_result()  on a fresh metric with values e:
+   (status, r1.stats, r1.error_array read afterwards, r1 unit, m.error, m.unit, r2.stats) *)
+Definition alias_scenario (inplace : bool) (pi : T) (e : list T) (u v : Unit) :=
+  let h0 : heap := [e] in
+  let m0 : hmetric := (0, u) in
+  let r1 := get_result_h h0 m0 in
+  let '(st, (h1, m1)) := change_unit_h inplace pi h0 m0 v in
+  let r2 := get_result_h h1 m1 in
+  (st, res_stats r1, hread h1 (res_addr r1), res_unit r1, hread h1 (fst m1), snd m1, res_stats r2).
+End Heap.
+
 (* binary64 math.pi, for the correspondence runs *)
 Module PiFloat.
 Import PrimFloat.
@@ -378,3 +433,4 @@ Definition pi_float : float := 0x1.921fb54442d18p+1.
 End PiFloat.
 Definition pi_float : PrimFloat.float := PiFloat.pi_float.
 Definition change_unit_F := @change_unit PrimFloat.float F_ops pi_float.
+Definition alias_scenario_F := @alias_scenario PrimFloat.float F_ops.
